@@ -960,23 +960,9 @@ func unparseQuery(q b6.Query) (string, bool) {
 	case b6.Keyed:
 		return q.Key, true
 	case b6.Intersection:
-		qs := make([]string, len(q))
-		for i := range q {
-			var ok bool
-			if qs[i], ok = unparseQuery(q[i]); !ok {
-				return "", false
-			}
-		}
-		return strings.Join(qs, " & "), true
+		return unparseQueries(q, " & ")
 	case b6.Union:
-		qs := make([]string, len(q))
-		for i := range q {
-			var ok bool
-			if qs[i], ok = unparseQuery(q[i]); !ok {
-				return "", false
-			}
-		}
-		return strings.Join(qs, " | "), true
+		return unparseQueries(q, " | ")
 	case *b6.Tagged:
 		return unparseQuery(*q)
 	case *b6.Keyed:
@@ -987,6 +973,25 @@ func unparseQuery(q b6.Query) (string, bool) {
 		return unparseQuery(*q)
 	}
 	return "", false
+}
+
+// unparseQueries joins the operands of an intersection or union. The
+// grammar gives & and | no precedence and groups them to the right, so
+// an operand that is itself an intersection or union is bracketed.
+func unparseQueries(qs []b6.Query, operator string) (string, bool) {
+	parts := make([]string, len(qs))
+	for i, q := range qs {
+		part, ok := unparseQuery(q)
+		if !ok {
+			return "", false
+		}
+		switch q.(type) {
+		case b6.Intersection, b6.Union, *b6.Intersection, *b6.Union:
+			part = "[" + part + "]"
+		}
+		parts[i] = part
+	}
+	return strings.Join(parts, operator), true
 }
 
 func UnparseExpression(e b6.Expression) (string, bool) {
